@@ -14,7 +14,13 @@ RULE = ("seeded random condition trees (comparisons == != < <= > >= over "
         "`with c:` and `with c as Else: ... with Else:`, nested to depth 3 and "
         "sequenced with assignments; marker variables record which body, "
         "Else body and continuation ran, in the kernel and the reference "
-        "machine; a case = (program, input vector); non-trivial = at least "
+        "machine; plus blocks whose body leaves the program, and else-if "
+        "chains of 2-4 members in the form the library's own dispatcher "
+        "uses (`with E, c as E:`), members being comparisons, bit tests, "
+        "one-bit fields, and/or combinations and negations, with and "
+        "without a final else, alone or inside an outer block, run in the "
+        "kernel for every combination of truth values of the members; "
+        "a case = (program, input vector); non-trivial = at least "
         "one condition inside the precondition (all compared values fit the "
         "narrowest width); atom x polarity coverage is counted")
 ASSUMPTIONS = c01.ASSUMPTIONS[:2] + [
@@ -507,9 +513,190 @@ def exit_leg(res, rng, n):
                 ld.close()
 
 
+def chain_affected(kinds, final_else):
+    """the recorded mechanism (known_findings.json, C03
+    bit-test-with-else-in-else-chain): a bit test used directly as a
+    condition whose Else is used swaps its two blocks when the Else block
+    ends; that invalidates a jump set before it (the bit test is not the
+    first condition of the chain) and the positions remembered by a
+    condition inside its Else block whose own Else is still to come"""
+    k = len(kinds)
+
+    def else_used(i):            # 0-based
+        return i < k - 1 or final_else
+    return any(kinds[i] in ("bit", "field") and else_used(i) and
+               (i > 0 or (i + 1 < k and else_used(i + 1)))
+               for i in range(k))
+
+
+def elif_leg(res, rng, n):
+    """else-if chains as the library's own dispatcher writes them:
+    `with c1 as E: ...`, `with E, c2 as E: ...`, ..., optionally a final
+    `with E: ...`, followed by code behind; conditions are comparisons, bit
+    tests, one-bit fields, and/or combinations and negations; every
+    combination of truth values of the conditions is run in the kernel"""
+    import itertools
+    from .. import prog
+    from ebpfcat.arraymap import ArrayMap
+    from ebpfcat.ebpf import LocalVar
+    from ebpfcat.xdp import XDP
+    ops = {"==": lambda x, y: x == y, "!=": lambda x, y: x != y,
+           "<": lambda x, y: x < y, "<=": lambda x, y: x <= y,
+           ">": lambda x, y: x > y, ">=": lambda x, y: x >= y}
+    for _ in range(n):
+        k = rng.choice([2, 2, 3, 3, 4])
+        final_else = rng.random() < 0.6
+        outer = rng.choice([None, None, "true", "false"])
+        kinds = [rng.choice(["cmp", "cmp", "bit", "field", "andor", "not"])
+                 for _ in range(k)]
+        pars = []
+        for kd in kinds:
+            if kd == "bit":
+                pars.append(dict(mask=rng.choice([1, 4, 6, 0x80, 0x300])))
+            elif kd == "field":
+                pars.append(dict(pos=rng.randrange(8)))
+            else:
+                pars.append(dict(op=rng.choice(CMP), k=rng.randint(0, 40)))
+        m = ArrayMap()
+        ns = {"license": "GPL", "m": m, "mk": m.globalVar("I"),
+              "o": m.globalVar("I")}
+        for i, (kd, pr) in enumerate(zip(kinds, pars)):
+            ns[f"v{i}"] = m.globalVar("I")
+            if kd == "field":
+                ns[f"f{i}"] = LocalVar((pr["pos"], 1))
+
+        def cond(e, i):
+            kd, pr = kinds[i], pars[i]
+            v = getattr(e, f"v{i}")
+            if kd == "bit":
+                return v & pr["mask"]
+            if kd == "field":
+                return getattr(e, f"f{i}")
+            c = ops[pr["op"]](v, pr["k"])
+            if kd == "andor":
+                return c & (v != pr["k"] + 1000)
+            if kd == "not":
+                return ~c
+            return c
+
+        def truth(i, val):
+            kd, pr = kinds[i], pars[i]
+            if kd == "bit":
+                return bool(val & pr["mask"])
+            if kd == "field":
+                return bool(val)
+            t = ops[pr["op"]](val, pr["k"])
+            return (not t) if kd == "not" else t
+
+        def chain(e):
+            with cond(e, 0) as E:
+                e.mk = e.mk | 1
+            for i in range(1, k):
+                if i < k - 1 or final_else:
+                    with E, cond(e, i) as E:
+                        e.mk = e.mk | (1 << i)
+                else:
+                    with E, cond(e, i):
+                        e.mk = e.mk | (1 << i)
+            if final_else:
+                with E:
+                    e.mk = e.mk | 0x100
+
+        def program(self):
+            e = self
+            for i, kd in enumerate(kinds):
+                if kd == "field":
+                    setattr(e, f"f{i}", 0)
+                    with getattr(e, f"v{i}") != 0:
+                        setattr(e, f"f{i}", 1)
+            if outer is None:
+                chain(e)
+            else:
+                with (e.o == 1) as Eo:
+                    chain(e)
+                    e.mk = e.mk | 0x400
+                with Eo:
+                    e.mk = e.mk | 0x800
+            e.mk = e.mk | 0x200
+            e.r0 = 2
+            e.exit()
+        ns["program"] = program
+        desc = dict(elif_leg=True, kinds=kinds, pars=pars,
+                    final_else=final_else, outer=outer)
+        affected = chain_affected(kinds, final_else)
+        res.count("else_chains" + ("_with_a_bit_test_whose_else_is_used"
+                                   if affected else ""))
+        with kern.session() as sess:
+            try:
+                e = type("VfElif", (XDP,), ns)()
+                ld = prog.Loaded(e, sess)
+                ld.load()
+            except (OSError, AssertionError) as ex:
+                # (a chain that the recorded mechanism garbles may also be
+                # refused by the kernel or trip an assertion of the
+                # generator)
+                if affected:
+                    res.violation(
+                        "bit-test-with-else-in-else-chain",
+                        f"else-if chain {kinds} cannot be generated / "
+                        f"loaded: {type(ex).__name__}", case=desc)
+                else:
+                    res.count("else_chain_load_failed (C05's business)")
+                continue
+            try:
+                vals = []
+                for i, (kd, pr) in enumerate(zip(kinds, pars)):
+                    if kd == "bit":
+                        vals.append([0, pr["mask"], 0xffff ^ pr["mask"]])
+                    elif kd == "field":
+                        vals.append([0, 1])
+                    else:
+                        vals.append([max(pr["k"] - 1, 0), pr["k"],
+                                     pr["k"] + 1])
+                bad = None
+                for combo in itertools.product(*vals):
+                    for i, val in enumerate(combo):
+                        setattr(e, f"v{i}", val)
+                    e.mk = 0
+                    e.o = 1 if outer == "true" else 0
+                    ld.run_k(bytes(64))
+                    want = 0x200
+                    if outer == "false":
+                        want |= 0x800
+                    else:
+                        first = next((i for i in range(k)
+                                      if truth(i, combo[i])), None)
+                        if first is not None:
+                            want |= 1 << first
+                        elif final_else:
+                            want |= 0x100
+                        if outer == "true":
+                            want |= 0x400
+                    res.case([desc, list(combo)], nontrivial=True)
+                    res.count("else_chain_runs")
+                    if e.mk != want:
+                        bad = (combo, e.mk, want)
+                        break
+                if bad:
+                    combo, got, want = bad
+                    res.violation(
+                        "bit-test-with-else-in-else-chain" if affected
+                        else "unexplained:cond else-chain",
+                        f"else-if chain {kinds} (final else "
+                        f"{final_else}, outer block {outer}) with values "
+                        f"{list(combo)}: blocks run = {got:#x}, expected "
+                        f"{want:#x} (bit i = body of condition i, 0x100 "
+                        f"final else, 0x200 behind, 0x400/0x800 outer "
+                        f"block / its else)", case=desc)
+            finally:
+                ld.close()
+
+
 def run_shard(params):
     res = Result()
     rng = random.Random(params["seed"] * 100019 + params["shard"])
+    elif_leg(res, random.Random(rng.getrandbits(32)),
+             max(6, params["n"] // 12))
     for i in range(params["n"]):
         case = gen_case(rng, params["depth"])
         check_case(case, res, use_v=(i % 3 == 0))
